@@ -3,7 +3,7 @@
 Model (JSON-serialisable; the top-level package name is NOT part of the model, the renderer receives it):
 
     case = {"kind": "pkg", "layout": "module" | "package", "mods": [mod, ...]}      # mods in import order
-    mod  = {"path": ["a"] | [] | ["sub"] | ["sub", "c"], "init": bool, "doc": str | None, "body": [item, ...],
+    mod  = {"path": ["a"] | [] | ["sub"] | ["sub", "c"] | ["sub", "deep", "core", "leaf"], "init": bool, "doc": str | None, "body": [item, ...],
             "typing": bool}     # typing: the module starts with `from typing import Generic, Protocol, TypeVar; T = TypeVar("T")`
     item = {"t": "attr",  "name": str, "value": <literal source>}
          | {"t": "func",  "name": str, "params": [param, ...], "ret": <annotation source> | None, "doc": str | None,
@@ -11,6 +11,7 @@ Model (JSON-serialisable; the top-level package name is NOT part of the model, t
             "setter": bool, "init_attrs": [str, ...]}
          | {"t": "class", "name": str, "doc": str | None, "bases": [[part, ...], ...], "body": [item, ...]}
            # a base is a dotted name; a last part starting with "[" is a subscript: ["Repo", "[int]"], ["Generic", "[T]"]
+           # relative forms climb to the nearest common package plus "up" (0-2) further ones: from ...sub.c import X
          | {"t": "from",    "mod": idx, "rel": bool, "names": [[name, asname | None], ...]}      from pkg.a import A as A2
          | {"t": "frommod", "mod": idx, "rel": bool, "as": asname | None}                        from pkg import a [as x]
          | {"t": "import",  "mod": idx, "as": asname | None}                                     import pkg.a [as x]
@@ -48,6 +49,11 @@ TOP = "$TOP"
 MOD_NAMES = ["a", "b", "_u"]
 SUBPKG_NAMES = ["sub", "_sp"]
 SUBMOD_NAMES = ["c", "d"]
+# per nesting depth of the containing package: plain-module names, sub-package names, max plain modules, chance of a sub-package
+LEVEL_MODS = [MOD_NAMES, SUBMOD_NAMES, ["e", "k"], ["leaf"]]
+LEVEL_PKGS = [SUBPKG_NAMES, ["deep", "_dp"], ["core"]]
+LEVEL_MAX_PLAIN = [2, 2, 1, 1]
+LEVEL_SUBPKG_PCT = [40, 55, 40]
 MOD_FUNCS = ["f", "g", "_h", "make", "run"]
 MOD_CLASSES = ["A", "B", "C", "Base", "_P"]
 MOD_ATTRS = ["X", "Y", "_z", "VERSION", "__version__"]
@@ -135,6 +141,10 @@ class _Builder:
             STEERED["class-private-name-mangling"] = STEERED.get("class-private-name-mangling", 0) + 1
             return False
         return True
+
+    def climb(self) -> int:
+        """Extra packages a relative import climbs beyond the nearest common one (`from ...sub.c import X` inside pkg/sub/deep)."""
+        return self.draw(st.integers(1, 2)) if self.chance(20) else 0
 
     def fresh(self, pool, used) -> str | None:
         free = [n for n in pool if n not in used]
@@ -324,6 +334,12 @@ class _Builder:
                     body.append({"t": "attr", "name": n, "value": self.value(allow_none)})
                 else:
                     body.append(self.func(n, None, "self"))
+        # `self.v = 0` in __init__ must not shadow a method `v` of the class (the visitor would turn the method into an
+        # instance attribute: that is the tolerated "instance attributes assigned in __init__", not a skeleton difference)
+        funcs = {it["name"] for it in body if it["t"] == "func"}
+        for it in body:
+            if it["t"] == "func" and it["init_attrs"]:
+                it["init_attrs"] = [a for a in it["init_attrs"] if a not in funcs]
         # "orig" is informational (evidence histogram): does the class have a subscripted base of its own, or only inherit one
         own = any(b[-1].startswith("[") for b in bases)
         return {"t": "class", "name": name, "doc": self.doc(), "bases": bases, "body": body, "orig": "own" if own else "inherited" if orig else None}, cid
@@ -368,7 +384,7 @@ class _Builder:
                     env[asname or nm] = ref
                     names.append([nm, asname])
                 if names:
-                    items.append({"t": "from", "mod": j, "rel": self.chance(50), "names": names})
+                    items.append({"t": "from", "mod": j, "rel": self.chance(50), "names": names, "up": self.climb()})
             elif form == "frommod":
                 last = tgt["path"][-1]
                 parent_is_me = self.mods[i]["init"] and self.mods[i]["path"] == tgt["path"][:-1]
@@ -382,7 +398,7 @@ class _Builder:
                     env[last] = {"k": "submodule", "idx": j}
                 else:
                     env[asname or last] = {"k": "module", "idx": j}
-                items.append({"t": "frommod", "mod": j, "rel": self.chance(50), "as": asname})
+                items.append({"t": "frommod", "mod": j, "rel": self.chance(50), "as": asname, "up": self.climb()})
             elif form == "import":
                 asname = None
                 if is_top_init or TOP in env or self.chance(50) or not tgt["path"]:
@@ -407,7 +423,7 @@ class _Builder:
                     continue
                 for nm in exported:
                     env[nm] = src[nm]
-                items.append({"t": "star", "mod": j, "rel": self.chance(50)})
+                items.append({"t": "star", "mod": j, "rel": self.chance(50), "up": self.climb()})
         return items
 
     def module(self, i: int, layout_pkg: bool) -> None:
@@ -484,6 +500,20 @@ class _Builder:
         meta["doc"] = self.doc()
         self.modenvs.append(env)
 
+    def package_block(self, path: list[str], depth: int) -> list[dict]:
+        """Modules of the package at `path` in import order. Units of the order: the plain modules, the package __init__, and
+        the (recursively built) sub-package as ONE contiguous block. Every explicit import goes to an earlier module, so with
+        contiguous blocks the stack of executing modules is strictly decreasing in this order (an implicitly started
+        ancestor __init__ of an import target lies in the target's block, hence before the importer): no module ever needs
+        a name from a module that is still executing. Nesting goes down to pkg/sub/deep/core (depth 3)."""
+        d = self.draw
+        n_plain = d(st.integers(0, LEVEL_MAX_PLAIN[depth]))
+        units: list[list[dict]] = [[{"path": [*path, n], "init": False}] for n in list(d(st.permutations(LEVEL_MODS[depth])))[:n_plain]]
+        units.append([{"path": list(path), "init": True}])
+        if depth < 3 and self.chance(LEVEL_SUBPKG_PCT[depth]):
+            units.append(self.package_block([*path, self.pick(LEVEL_PKGS[depth])], depth + 1))
+        return [m for unit in d(st.permutations(units)) for m in unit]
+
     def build(self) -> dict:
         d = self.draw
         layout = self.pick(["module", "package", "package", "package", "package", "package"])
@@ -491,20 +521,7 @@ class _Builder:
             self.mods = [{"path": [], "init": False}]
             self.top_idx = 0
         else:
-            # units of the import order: plain sub-modules, the top-level __init__, and the sub-package as ONE contiguous
-            # block (its __init__ and children in any internal order): importing a child implicitly starts the
-            # sub-package __init__, which then only needs modules of its own block or modules before the block
-            n_plain = d(st.integers(0, 2))
-            plain = list(d(st.permutations(MOD_NAMES)))[:n_plain]
-            units: list[list[dict]] = [[{"path": [n], "init": False}] for n in plain]
-            units.append([{"path": [], "init": True}])
-            if self.chance(35):
-                sp = self.pick(SUBPKG_NAMES)
-                block = [{"path": [sp], "init": True}]
-                for n in list(d(st.permutations(SUBMOD_NAMES)))[: d(st.integers(0, 1 if n_plain == 2 else 2))]:
-                    block.append({"path": [sp, n], "init": False})
-                units.append(list(d(st.permutations(block))))
-            self.mods = [m for unit in d(st.permutations(units)) for m in unit]
+            self.mods = self.package_block([], 0)
             self.top_idx = next(i for i, m in enumerate(self.mods) if m["init"] and not m["path"])
         for i in range(len(self.mods)):
             self.module(i, layout == "package")
@@ -551,6 +568,17 @@ def _render_params(params: list[dict]) -> str:
             if k == "po" and i == n_po - 1:
                 parts.append("/")
     return ", ".join(parts)
+
+
+def rel_parts(me: dict, path: list[str], up: int = 0) -> tuple[int, list[str]]:
+    """(number of leading dots, remaining dotted parts) of a relative import of `path` written in module `me`; `up` extra
+    packages are climbed beyond the nearest common one (bounded by the top-level package)."""
+    pkg = me["path"] if me["init"] else me["path"][:-1]  # package that contains `me`
+    common = 0
+    while common < len(pkg) and common < len(path) and pkg[common] == path[common]:
+        common += 1
+    common = max(0, common - up)
+    return len(pkg) - common + 1, path[common:]
 
 
 def _render_base(parts: list[str], top: str) -> str:
@@ -601,12 +629,8 @@ def _render_items(items: list[dict], ind: str, top: str, mods: list[dict], me: d
             absolute = dotted(top, tgt["path"])
 
             def rel(path: list[str]) -> str:
-                # package that contains `me`
-                pkg = me["path"] if me["init"] else me["path"][:-1]
-                common = 0
-                while common < len(pkg) and common < len(path) and pkg[common] == path[common]:
-                    common += 1
-                return "." * (len(pkg) - common + 1) + ".".join(path[common:])
+                level, rest = rel_parts(me, path, it.get("up", 0))
+                return "." * level + ".".join(rest)
 
             if t == "from":
                 names = ", ".join((top if n == TOP else n) + (f" as {a}" if a else "") for n, a in it["names"])
@@ -694,6 +718,7 @@ def describe(case: dict):
     cls.add(f"modules:{len(mods)}")
     if any(m["init"] and m["path"] for m in mods):
         cls.add("subpackage")
+    cur = mods[0]
     n_imports = 0
     max_flavours = 0
 
@@ -710,6 +735,11 @@ def describe(case: dict):
                     cls.add("import:from-as")
                 if t in ("from", "star", "frommod") and it["rel"]:
                     cls.add("import:relative")
+                    tpath = mods[it["mod"]]["path"]
+                    level, _ = rel_parts(cur, tpath[:-1] if t == "frommod" else tpath, it.get("up", 0))
+                    cls.add(f"import:relative-level{level}")
+                    if level >= 2 and cur["init"] and len(cur["path"]) >= 2:
+                        cls.add("import:relative-level>=2-in-nested-__init__")
                 if mods[it["mod"]]["init"]:
                     cls.add("import:from-init")
             elif t == "all":
@@ -792,7 +822,9 @@ def describe(case: dict):
         if in_class:
             max_flavours = max(max_flavours, len(flav))
 
+    cls.add(f"depth:{max(len(m['path']) for m in mods if m['init'] or not m['path']) if case['layout'] == 'package' else 0}")
     for m in mods:
+        cur = m
         if m.get("typing"):
             cls.add("typing-header")
         if m["doc"] is not None:
